@@ -236,6 +236,10 @@ def _gearbox(ctx):
                     "changes the offered token while valid & ~ready", min_sites=3)
     from .c05 import crossing_stage_domains
     crossing_stage_domains(ctx, "S16")
+    from ..share import lift
+    lift(ctx, "c16", [("P3", "Dispatcher", "default arm drains"), ("P3", "Dispatcher", "master connected to slaves")], "S18",
+         "packet.Dispatcher never blocks its producer on a selector that names no slave: the default arm drains (master.ready = 1) and "
+         "each slave is connected under its own selector value (C16.P3 decides the same construct)", min_sites=2)
     # position counters wrap explicitly at their last value and the declared width holds that value for every ratio: a counter that
     # cannot reach ratio - 1 never completes a word -- the sink is never accepted again (livelock), whatever producer and consumer do
     for cls_, reg_ in (("_UpConverter", "demux"), ("_DownConverter", "mux"), ("Pack", "demux"), ("Unpack", "mux"),
